@@ -34,6 +34,8 @@ pub struct NoDef(pub u8);
 pub struct PErrG<T>(pub String, pub core::marker::PhantomData<T>);
 pub fn perr_g<T>(s: &str) -> PErrG<T> { CALLS.fetch_add(1, Ordering::SeqCst); PErrG(s.to_string(), core::marker::PhantomData) }
 pub mod errs { pub use super::{PErr, perr}; }
+/// a parse_err_fn that is generic over its ARGUMENT (not coercible to one `fn(&str) -> _` pointer)
+pub fn perr_any<S: AsRef<str>>(s: S) -> PErr { CALLS.fetch_add(1, Ordering::SeqCst); PErr(s.as_ref().to_string()) }
 
 /// A fixed-capacity, allocation-free string-ish type (used where `String` is not available).
 #[derive(Debug, PartialEq, Clone, Default)]
@@ -138,7 +140,7 @@ GENERIC_DECL = {
 }
 # spellings of the custom parse error: (parse_err_ty, parse_err_fn, pattern binding the message as `s`)
 ERR_FORMS = {'plain': ('PErr', 'perr', 'PErr(s)'), 'path': ('errs::PErr', 'errs::perr', 'PErr(s)'),
-             'generic': ('PErrG<u8>', 'perr_g::<u8>', 'PErrG(s, _)')}
+             'generic': ('PErrG<u8>', 'perr_g::<u8>', 'PErrG(s, _)'), 'argfn': ('PErr', 'perr_any', 'PErr(s)')}
 # the same parameter lists with defaults (legal on the enum, not allowed in an impl header)
 GENERIC_DEFAULTS = {'ty': ' = u16', 'lt_ty': ' = u16', 'ty_nd': ' = NoDef', 'const': ' = 3'}
 
@@ -183,6 +185,7 @@ pub struct NoDef(pub u8);
 pub struct PErrG<T>(pub Cap, pub core::marker::PhantomData<T>);
 pub fn perr_g<T>(s: &str) -> PErrG<T> { CALLS.fetch_add(1, Ordering::SeqCst); PErrG(Cap::from(s), core::marker::PhantomData) }
 pub mod errs { pub use super::{PErr, perr}; }
+pub fn perr_any<S: AsRef<str>>(s: S) -> PErr { CALLS.fetch_add(1, Ordering::SeqCst); PErr(Cap::from(s.as_ref())) }
 #[derive(Debug, PartialEq, Clone, Default)]
 pub struct PErr(pub Cap);
 pub fn perr(s: &str) -> PErr { CALLS.fetch_add(1, Ordering::SeqCst); PErr(Cap::from(s)) }
